@@ -2,6 +2,38 @@
 from ._util import q as _q
 
 ID = "C04"
+
+# The unchanged tree mis-nests a few polygons per 10^4 degenerate rectilinear scenes (class tags
+# attached_too_high@rect..., see findings/c04_*.txt) and overflows the stack in CheckSplitOwner on a few per 10^5.
+# Those classes are narrow in *what* goes wrong but not in *why*: a regression in ProcessHorzJoins' ownership
+# branches, CheckSplitOwner or MoveSplits shows up as more members of the same classes (seeded edits: 228..1235 per
+# quick run against 3..12). So that listing the classes as known findings cannot hide such a regression, the rate of
+# each class is compared with a limit several times the pinned rate (exact counts go to the evidence).
+_RATE_LIMITS = [
+    # (claim of the tripwire, tag prefix counted, limit per rectilinear scene, minimum limit)
+    ("C04.rect_misnesting_rate", "attached_too_high@rect", 1.2e-3, 40),      # pinned rate ~5e-4 (3..12 per 15360)
+    ("C04.rect_crash_rate", "stack_overflow@rect", 2.0e-4, 10),             # pinned rate ~3e-5 (0..2 per 15360)
+]
+
+
+def _post(ctx):
+    rect = ctx["counters"].get("scenes_rect", 0)
+    for claim, prefix, per_scene, floor in _RATE_LIMITS:
+        n, example = 0, ""
+        for w in ctx["workers"]:
+            for r in w.records():
+                if r.get("t") == "violation" and any(t.startswith(prefix) for t in r.get("tags", [])):
+                    n += 1
+                    example = example or r.get("witness", "")
+        limit = max(floor, int(per_scene * rect))
+        ctx["counters"]["violations_of_class_" + prefix] = n
+        ctx["counters"]["limit_for_class_" + prefix] = limit
+        if n > limit:
+            ctx["report"](claim, ["rate_above_pinned_baseline"], example,
+                          "%d violations of class %s* in %d rectilinear scenes; the pinned tree produces about a third of the limit %d: "
+                          "a change made this class of defect several times more frequent" % (n, prefix, rect, limit))
+
+
 PROP = {
     "level": "exploration",
     "level_text": ("Exploration: every run executes two Clipper64 objects (one into Paths64, one into PolyTree64) on tens of "
@@ -36,4 +68,5 @@ PROP = {
     "jobs": [
         {"mon": "mon_c04", "cfg": "plain", "cases": _q(40960, 1228800)},
     ],
+    "post": _post,
 }
